@@ -139,6 +139,18 @@ impl Prop for C09 {
                 }
             }
         }));
+        let sl_max = if tier == Tier::Quick { 12usize } else { 40 };
+        v.push(Scope::new("runs-with-stub", "a horizontal run of '-', '_' or '~' of every length 2..bound with a '|' directly above or below every one of its cells, and a vertical run of '|' with a '-' directly left or right of every one of its rows: the run is still covered by one line from its first to its last cell", move |f| {
+            for ci in 0..4i64 {
+                for l in 2..=sl_max {
+                    for j in 0..l {
+                        for side in 0..2i64 {
+                            f(Case::sn("stub", vec![ci, l as i64, j as i64, side]));
+                        }
+                    }
+                }
+            }
+        }));
         let ml = if tier == Tier::Quick { 8 } else { 10 };
         v.push(Scope::new("mixed-runs", "all strings over {-,~} (horizontal) and over {|,:,!} with a leading '|' (vertical) up to the length bound", move |f| {
             for l in 1..=ml {
@@ -239,6 +251,40 @@ impl Prop for C09 {
                 cx.outcome(&d.skeleton());
             }
             check_invariant(cx, &d);
+            return;
+        }
+        if scope == "runs-with-stub" {
+            let (ci, l, j, side) = (case.n[0], case.n[1] as usize, case.n[2] as usize, case.n[3]);
+            let (drawing, want): (String, (f64, f64, f64, f64)) = if ci < 3 {
+                let c = ['-', '_', '~'][ci as usize];
+                let run: String = std::iter::repeat(c).take(l).collect();
+                let stub = format!("{}|", " ".repeat(j));
+                let (d, row) = if side == 0 { (format!("{}\n{}", stub, run), 1.0) } else { (format!("{}\n{}", run, stub), 0.0) };
+                let y = 16.0 * row + if c == '_' { 16.0 } else { 8.0 };
+                (d, (0.0, y, 8.0 * l as f64, y))
+            } else {
+                let rows: Vec<String> = (0..l).map(|r| if r == j { if side == 0 { "-|".to_string() } else { " |-".to_string() } } else { " |".to_string() }).collect();
+                (rows.join("\n"), (12.0, 0.0, 12.0, 16.0 * l as f64))
+            };
+            let d = match cx.conv_doc(&drawing, &Sett::bare()) {
+                Some(d) => d,
+                None => return,
+            };
+            cx.compared();
+            check_invariant(cx, &d);
+            let covered = d.of(Kind::Line).any(|e| {
+                let (ax, ay, bx, by) = (e.xs[0].min(e.xs[1]), e.ys[0].min(e.ys[1]), e.xs[0].max(e.xs[1]), e.ys[0].max(e.ys[1]));
+                if want.1 == want.3 {
+                    ay == want.1 && by == want.1 && ax <= want.0 && bx >= want.2
+                } else {
+                    ax == want.0 && bx == want.0 && ay <= want.1 && by >= want.3
+                }
+            });
+            if !covered {
+                cx.fail("run-cut-short", format!("drawing {:?}: no single line covers the run from ({},{}) to ({},{}); got [{}]", drawing, want.0, want.1, want.2, want.3, d.elems.iter().take(6).map(|e| e.brief()).collect::<Vec<_>>().join(" ; ")));
+            } else {
+                cx.outcome(&("stub", ci, l.min(6), side));
+            }
             return;
         }
         // a run: build the drawing and predict the line(s)
